@@ -107,6 +107,21 @@ def _fixed_jobs(rng, tier):
                 return g.P("S", [npn, g.P("VP", kids)])
             jobs.append(tree_job("fr", "phrase", b))
 
+    # non-subject relative pronouns whose clause has a COORDINATED subject (NP > SP position)
+    for lang in ("fr", "en"):
+        for _ in range(60 if tier == "quick" else 600):
+            def b(g):
+                npn, hd = g.np(1, rel_ok=False)
+                for _ in range(20):
+                    n0, r0, t0 = g.n, list(g.rels), set(g.tags)
+                    sp = g.object_relative(hd)
+                    if "coord-subject-in-relative" in g.tags:
+                        break
+                    g.n, g.rels, g.tags = n0, r0, t0
+                npn["kids"].append(sp)
+                return npn
+            jobs.append(tree_job(lang, "phrase", b, tags=["relative"]))
+
     # mutation panel B: a coordinated subject that grows after it has been installed; also shared by two clauses
     for lang in ("fr", "en"):
         for shared in (False, True):
@@ -240,6 +255,10 @@ def signature(job, fail):
     if fail.get("desync"):
         return "desync|%s|%s|%s.%s:own≠record|dep=%s" % (lang, notation, ctrlk, "+".join(fail["desync"]), r["kind"])
     tags = list(r["tags"])
+    for t in ("pro=which", "pro=whom", "pro=P+lequel"):
+        if t in tags and "object-relative" in tags:
+            # these pronouns are always taken as the subject of their clause: the verb follows the antecedent
+            return "objrel-pronoun-taken-as-subject|%s|%s|%s" % (lang, notation, t)
     if "coord-vp" in tags and ctrlk == "CP" and fail.get("ctrl_n_before") is None:
         # the subject coordination had no number when the coordinated VPs were realized (S.real sets the default after)
         return "late-number|%s|%s|%s|coord-vp|CP-subject-without-number" % (lang, notation, r["kind"])
